@@ -191,7 +191,8 @@ def build(family, shape, defect, eps, where, vseed, rereg=False):
                     gz = anp.real(g) * (2 * z * cc)
                 else:
                     gz = apply_defect(dv, gz)
-                return ab_dict({"z": gz, "r": anp.real(g)})
+                # (a dict is the same value whatever order it was built in: half of the cases build the gradient in the other key order)
+                return ab_dict({"r": anp.real(g), "z": gz}) if vseed % 2 else ab_dict({"z": gz, "r": anp.real(g)})
             return r
 
         def jvp(g, ans, d):
